@@ -49,7 +49,14 @@ where
   type Unsub = ();
 
   fn actual_subscribe(self, mut observer: O) -> Self::Unsub {
-    self.0.into_iter().for_each(|v| observer.next(v));
+    for v in self.0.into_iter() {
+      observer.next(v);
+      // Stop pulling once the subscriber is done (e.g. a downstream `take`),
+      // otherwise an unbounded iterator would never return.
+      if observer.is_finished() {
+        return;
+      }
+    }
     observer.complete();
   }
 }
